@@ -9,7 +9,6 @@ def NoInt {α : Type} (x : R α) : Prop := ∀ k, x ≠ .error (.internal k)
 
 theorem noInt_ok {α : Type} (a : α) : NoInt (.ok a : R α) := by intro k h; cases h
 theorem noInt_adm {α : Type} (k : AdmKind) : NoInt (.error (.adm k) : R α) := by intro k' h; cases h
-theorem noInt_noOracle {α : Type} : NoInt (.error .noOracle : R α) := by intro k' h; cases h
 
 theorem noInt_bind {α β : Type} {x : R α} {f : α → R β} (hx : NoInt x) (hf : ∀ a, x = .ok a → NoInt (f a)) :
     NoInt (x >>= f) := by
